@@ -241,9 +241,11 @@ def run(shard, ctx):
                     d_same = dict(dec)
                     b_a = bytes(cls.marshall_cdb(d_same))
                     d_same[k0] = d_same[k0] ^ 1
-                    b_b = bytes(cls.marshall_cdb(d_same))
-                    if cls.unmarshall_cdb(b_b).get(k0) != d_same[k0] or b_a != orig_cdb:
-                        ctx.fail("C02:%s.edit_in_place_lost" % c.name, "marshalling the same dict object after changing %s in place ignored the change" % k0, wit)
+                    b_b = bytes(cls.marshall_cdb(d_same))  # (contents never marshalled before: whatever is remembered is this object)
+                    d_same[k0] = d_same[k0] ^ 1
+                    b_c = bytes(cls.marshall_cdb(d_same))
+                    if cls.unmarshall_cdb(b_b).get(k0) != dec[k0] ^ 1 or b_a != orig_cdb or b_c != orig_cdb:
+                        ctx.fail("C02:%s.edit_in_place_lost" % c.name, "marshalling the same dict object after changing %s in place (and back) ignored a change: %s, %s, %s" % (k0, b_a.hex(), b_b.hex(), b_c.hex()), wit)
 
         # (2) direct joint assignments, full widths
         names = [k for k in lf if k != "opcode"]
